@@ -73,7 +73,7 @@ func main() {
 		cancelStress(n)
 	}
 	if os.Getenv("C05_ONLY_SWEEP") != "" {
-		sw := sweepConfigs(true)
+		sw := append(sweepConfigs(true), legacySweepConfigs(true)...)
 		run.Parallel(len(sw), 8, func(c *h.Case) { sweepCase(c, sw[c.Idx]) })
 		closeServers()
 		run.Finish(1)
@@ -104,7 +104,9 @@ func main() {
 	nMatrix := run.N(len(matrixTemplates())*4*2, len(matrixTemplates())*4*10)
 	sweeps := sweepConfigs(run.Thorough())
 
-	total := nLattice + nMatrix + len(sweeps) + nReload + nTLSMat + nPlugin
+	legacySweeps := legacySweepConfigs(run.Thorough())
+	nOld := nLattice + nMatrix + len(sweeps) + nReload + nTLSMat + nPlugin
+	total := nOld + len(legacySweeps)
 	run.Parallel(total, 8, func(c *h.Case) {
 		if os.Getenv("C05_TIMING") != "" {
 			t0 := time.Now()
@@ -123,8 +125,10 @@ func main() {
 			reloadCase(c, c.Idx-nLattice-nMatrix-len(sweeps))
 		case c.Idx < nLattice+nMatrix+len(sweeps)+nReload+nTLSMat:
 			tlsMatCase(c, c.Idx-nLattice-nMatrix-len(sweeps)-nReload)
-		default:
+		case c.Idx < nOld:
 			pluginCase(c, c.Idx-nLattice-nMatrix-len(sweeps)-nReload-nTLSMat)
+		default:
+			sweepCase(c, legacySweeps[c.Idx-nOld])
 		}
 	})
 	closeServers()
